@@ -141,6 +141,29 @@ def selftest(ctx):
         ok &= r is not None
         if tried >= 3:
             break
+    # negative models: one guard of the transcription removed must break the Prop layer
+    import shutil
+    src = open(os.path.join(SPEC, "KadStore.tla")).read()
+    negs = [("records-bound-off-by-one", "IF Cardinality(S.recs) >= C.maxRecords", "IF Cardinality(S.recs) > C.maxRecords"),
+            ("earlier-expiry-replaces", "IF old.exp # Never /\\ exp # Never /\\ old.exp > exp", "IF old.exp # Never /\\ exp # Never /\\ old.exp < exp"),
+            ("expired-returned", "IF HasRec(S, k) /\\ ExpiredAt(TheRec(S, k).exp, S.now)", "IF HasRec(S, k) /\\ FALSE"),
+            ("addresses-not-truncated", "naddr |-> Min(naddr, C.maxAddrs)]", "naddr |-> naddr]"),
+            ("furthest-not-evicted", "LET L2 == IF Len(L) = C.maxProvPerKey THEN SubSeq(L, 1, Len(L) - 1) ELSE L IN", "LET L2 == IF Len(L) = C.maxProvPerKey THEN SubSeq(L, 2, Len(L)) ELSE L IN")]
+    for name, a, b in negs:
+        a = a.replace("\\\\", "\\"); b = b.replace("\\\\", "\\")
+        if a not in src:
+            log("selftest negative %s: pattern not found" % name)
+            ok = False
+            continue
+        d = ctx.path("neg_" + name)
+        os.makedirs(d, exist_ok=True)
+        open(os.path.join(d, "KadStore.tla"), "w").write(src.replace(a, b))
+        shutil.copy(os.path.join(SPEC, "KadStoreMC.tla"), d)
+        cfg = write_cfg(ctx, "neg_%s.cfg" % name, dict(BASE, MaxNow=2, MaxOps=5, CMaxRecords=1, CMaxProvKeys=1, CMaxProvPerKey=2), MC_LINES)
+        r = tlc_mc(ctx, os.path.join(d, "KadStoreMC.tla"), cfg, workers=8, expect_violation=True)
+        viol = "is violated" in r["out"] or "was violated" in r["out"]
+        log("selftest negative %-28s -> %s" % (name, "violation found" if viol else "NO VIOLATION"))
+        ok &= viol
     log("SELFTEST %s" % ("ok" if ok and tried else "FAILED"))
     return 0 if ok and tried else 2
 
